@@ -755,6 +755,11 @@ def mapping_entries(ctx, t):
                 if ctx.head_of(it) == ("item",):
                     k, v = ctx.args_of(it)
                     out.append((k, v, []))
+        elif h[0] == "call" and h[1] == "dict" and len(h) > 3 and h[2] == 0:
+            # dict(a=x, b=y): the keywords are the entries
+            for k_, v_ in zip(h[3], ctx.args_of(x)):
+                if k_ != "**":
+                    out.append((ctx.mk(("str", k_)), v_, []))
     rec(t)
     return out
 
